@@ -158,6 +158,7 @@ class Harness:
         if d.get('zero_fork_inputs') or self.cfg.get('zero_fork_inputs'):
             for l in self.circuit.lines:
                 if l.reader.kind == '__fork__': arr[:, l.index] = 0
+        if d.get('short') and nl > d['short'] + 1: arr = arr[:, :nl - int(d['short'])]
         if d.get('ndim3') and arr.shape[0] == 1: arr = arr[0]      # the documented 3-dimensional form (one dataset)
         return arr
 
@@ -523,6 +524,7 @@ def run_config(built, case, cfg, res, monitors=('M1', 'M2', 'M3')):
     h = Harness(built, case, cfg, res, monitors)
     outs = []
     with h.session():
+        if -1 in (cfg.get('restore_after') or ()): h.restore_sim()      # pickled before it was ever used
         for bno, batch in enumerate(case['batches']):
             outs.append(h.run_batch(batch, bno))
             if bno in (cfg.get('restore_after') or ()) and bno + 1 < len(case['batches']): h.restore_sim()
